@@ -459,6 +459,36 @@ func expandCalls(c *Ctx, root *ssa.Function, follow func(*ssa.Function) bool, ma
 				x := xcall{Call: call, Fn: fn, Facts: facts, Chain: ch, bind: bind}
 				out = append(out, x)
 				cl := call.Common().StaticCallee()
+				// a plan: the call runs every element of a slice of functions held in a field (`for _, step := range
+				// p.steps { step(u) }`); each function that is ever appended to a slice stored into that field is run — under
+				// the condition it was appended under, where the plan was made
+				if cl == nil && !call.Common().IsInvoke() && depth < maxDepth {
+					for _, st := range planSteps(c, call) {
+						if len(st.fn.Blocks) == 0 || onStack[st.fn] || !follow(st.fn) {
+							continue
+						}
+						var fs []condFact
+						for _, f0 := range facts {
+							if !isRangeBoundFact(f0) {
+								fs = append(fs, f0)
+							}
+						}
+						fs = append(fs, st.facts...)
+						nb := map[ssa.Value]ssa.Value{}
+						for k, v := range bind {
+							nb[k] = v
+						}
+						for i, p := range st.fn.Params {
+							if i < len(call.Common().Args) {
+								nb[p] = x.Root(call.Common().Args[i])
+							}
+						}
+						onStack[st.fn] = true
+						rec(st.fn, fs, nb, ch, depth+1, onStack)
+						delete(onStack, st.fn)
+					}
+					continue
+				}
 				if cl == nil || len(cl.Blocks) == 0 || depth >= maxDepth || onStack[cl] || !follow(cl) {
 					continue
 				}
@@ -618,4 +648,144 @@ func holdsUpward(c *Ctx, f *ssa.Function, b *ssa.BasicBlock, depth int, pred fun
 		return true
 	}
 	return rec(f, b, nil, map[ssa.Value]ssa.Value{}, depth, map[*ssa.Function]bool{})
+}
+
+// ---- plans: slices of functions kept in a field and run in a loop ----
+
+type planStep struct {
+	fn    *ssa.Function
+	facts []condFact // the branch facts under which it was appended, in the function that made the plan
+}
+
+// isRangeBoundFact: the test of a range loop over a slice (rangeindex < len).
+func isRangeBoundFact(f condFact) bool {
+	bo, ok := f.Cond.(*ssa.BinOp)
+	if !ok || bo.Op != token.LSS {
+		return false
+	}
+	inc, ok := bo.X.(*ssa.BinOp)
+	if !ok || inc.Op != token.ADD {
+		return false
+	}
+	phi, ok := inc.X.(*ssa.Phi)
+	return ok && phi.Comment == "rangeindex"
+}
+
+// planSteps: call is `e(args)` with e an element of a slice loaded from a field F of an object; returns the named
+// functions that are appended (with the builtin append) to a slice that is stored into F somewhere in the module —
+// directly or as the result of the function that builds it — each with the facts at its append.
+func planSteps(c *Ctx, call *ssa.Call) []planStep {
+	ld, ok := call.Common().Value.(*ssa.UnOp)
+	if !ok || ld.Op != token.MUL {
+		return nil
+	}
+	ia, ok := ld.X.(*ssa.IndexAddr)
+	if !ok {
+		return nil
+	}
+	sl, ok := ia.X.(*ssa.UnOp)
+	if !ok || sl.Op != token.MUL {
+		return nil
+	}
+	fa, ok := sl.X.(*ssa.FieldAddr)
+	if !ok {
+		return nil
+	}
+	el := fieldElem(fa.X.Type(), fa.Field)
+	return c.Memo("planSteps:"+el, func() interface{} {
+		var out []planStep
+		okAll := true
+		seen := map[ssa.Value]bool{}
+		var trace func(v ssa.Value, depth int)
+		trace = func(v ssa.Value, depth int) {
+			if seen[v] || depth > 8 {
+				return
+			}
+			seen[v] = true
+			switch x := v.(type) {
+			case *ssa.Const:
+				// nil: the empty plan
+			case *ssa.Phi:
+				for _, e := range x.Edges {
+					trace(e, depth+1)
+				}
+			case *ssa.Slice:
+				trace(x.X, depth+1)
+			case *ssa.Call:
+				if bi, isB := x.Common().Value.(*ssa.Builtin); isB && bi.Name() == "append" {
+					trace(x.Common().Args[0], depth+1)
+					// the appended elements: a slice over a local array whose elements were stored one by one
+					if len(x.Common().Args) == 2 {
+						if s2, ok := x.Common().Args[1].(*ssa.Slice); ok {
+							if al, ok := s2.X.(*ssa.Alloc); ok {
+								facts := Facts(c, x.Parent()).At(x.Block())
+								for _, r := range *al.Referrers() {
+									ia2, ok := r.(*ssa.IndexAddr)
+									if !ok {
+										continue
+									}
+									for _, r2 := range *ia2.Referrers() {
+										st, ok := r2.(*ssa.Store)
+										if !ok || st.Addr != ssa.Value(ia2) {
+											continue
+										}
+										fv := st.Val
+										if ct, ok := fv.(*ssa.ChangeType); ok {
+											fv = ct.X
+										}
+										if fn, ok := fv.(*ssa.Function); ok {
+											out = append(out, planStep{fn, facts})
+										} else {
+											okAll = false
+										}
+									}
+								}
+								return
+							}
+						}
+						okAll = false
+					}
+					return
+				}
+				if g := x.Common().StaticCallee(); g != nil && len(g.Blocks) > 0 && c.P.InModule(g) {
+					for _, b := range g.Blocks {
+						if r, ok := b.Instrs[len(b.Instrs)-1].(*ssa.Return); ok && len(r.Results) == 1 {
+							trace(r.Results[0], depth+1)
+						}
+					}
+					return
+				}
+				okAll = false
+			default:
+				okAll = false
+			}
+		}
+		n := 0
+		for _, f := range c.P.ModFns {
+			for _, b := range f.Blocks {
+				for _, ins := range b.Instrs {
+					st, ok := ins.(*ssa.Store)
+					if !ok {
+						continue
+					}
+					fa2, ok := st.Addr.(*ssa.FieldAddr)
+					if !ok || fieldElem(fa2.X.Type(), fa2.Field) != el {
+						continue
+					}
+					n++
+					// the plan is made after the options were applied: the store stands behind every loop of its function
+					for _, l := range loopsOf(f) {
+						if l.Blocks[b] || !l.Header.Dominates(b) {
+							okAll = false
+						}
+					}
+					trace(st.Val, 0)
+				}
+			}
+		}
+		if !okAll || n == 0 {
+			return []planStep(nil)
+		}
+		return out
+	}).([]planStep)
 }
